@@ -202,10 +202,35 @@ Fixpoint viol_steps (rid : bytes) (prev : ig) (c : option (cstate jv)) (steps : 
 Definition viol_case (c : hcase) : list N :=
   viol_steps (rid_of c) (h_get0 c) (cl_of (h_get0 c)) (h_steps c).
 
+(* ---- size-scaling family (oracle only).
+   One Update of a long collection of integers (elements are the integers themselves).  The
+   model's quadratic LCS table is NOT evaluated on these (no mismatch obligation); the only
+   obligation is property C10 on the implementation's outputs: its remove/add script, applied
+   by the reference client to the collection the get served before, gives the collection the get
+   serves afterwards, every index in range.  [collection_script_correct(_any_oracle)] proves that
+   the modelled algorithm has this property for lists of EVERY length.
+   b_bad <> 0: the harness saw something that is not an add/remove on the resource
+   (5 = other resource id, 6 = unparseable event or get response, 2 = create/delete/change event). *)
+Inductive bop := BR (i : N) | BA (v i : N).
+Record bcase := BC { b_old : list N; b_new : list N; b_script : list bop; b_bad : N }.
+Definition bop_event (o : bop) : event N :=
+  match o with BR i => ERemove (N.to_nat i) | BA v i => EAdd v (N.to_nat i) end.
+Definition viol_big (c : bcase) : list N :=
+  if negb (b_bad c =? 0) then [b_bad c] else
+  match apply_colls (map bop_event (b_script c)) (b_old c) with
+  | None => [1]
+  | Some r => if list_eqb N.eqb r (b_new c) then [] else [3]
+  end ++
+  (if list_eqb N.eqb (b_old c) (b_new c) && negb (is_nil (b_script c)) then [4] else []).
+
+Inductive ccase := CH (h : hcase) | CB (b : bcase).
+Definition check_ccase (c : ccase) : list N := match c with CH h => check_case h | CB _ => [] end.
+Definition viol_ccase (c : ccase) : list N := match c with CH h => viol_case h | CB b => viol_big b end.
+
 Fixpoint run_idx {A} (f : A -> list N) (i : N) (cs : list A) : list (N * N) :=
   match cs with
   | [] => []
   | c :: r => map (fun k => (i, k)) (f c) ++ run_idx f (i + 1) r
   end.
-Definition mismatches (cs : list hcase) : list (N * N) := run_idx check_case 0 cs.
-Definition violations (cs : list hcase) : list (N * N) := run_idx viol_case 0 cs.
+Definition mismatches (cs : list ccase) : list (N * N) := run_idx check_ccase 0 cs.
+Definition violations (cs : list ccase) : list (N * N) := run_idx viol_ccase 0 cs.
